@@ -126,7 +126,7 @@ func init() {
 	families["C15"] = func(c *Ctx) {
 		seen := map[string]bool{}
 		var names []string
-		for _, p := range []string{"/verif/lean/OFV/Spec/Oxm.lean", "/verif/lean/OFV/Gen/Registry.lean"} {
+		for _, p := range []string{verifRoot() + "/lean/OFV/Spec/Oxm.lean", verifRoot() + "/lean/OFV/Gen/Registry.lean"} {
 			for _, n := range namesFrom(p) {
 				if !seen[n] {
 					seen[n] = true
